@@ -43,6 +43,25 @@ def gen_cases(tier, seed):
                 yield cl.H(cfgv).call(inv.callid, inv.args, inv.blobs, reps).case(5000, '%s / %s' % (inv.name, name))
 
 
+    # the same after an earlier call on the same client ended with an exception of another kind (timeout, rejected argument,
+    # missing configuration) or with each of the three response exceptions: the delivery rule has no memory
+    prefixes = [('after timeout', 6, [], [], []), ('after ValueError', 7, [0x100], [], []), ('after ConfigError', 25, [0x7777], [b'\x01'], []),
+                ('after negative', 6, [], [], [(10, b'\x7f\x3e\x22')]), ('after invalid', 6, [], [], [(10, b'\x7e')]),
+                ('after unexpected', 6, [], [], [(10, b'\x7e\x05')])]
+    for inv in invocations():
+        for name, reps in replies_for(inv):
+            if name not in ('positive', 'neg22', 'trunc1', 'flip-echo', 'other-service', 'silence'):
+                continue
+            for pname, pid, pargs, pblobs, preps in prefixes:
+                for sw in itertools.product((1, 0), repeat=3):
+                    cfgv = list(cl.DEFAULT_CFG)
+                    for s, v in inv.cfg.items():
+                        cfgv[s] = v
+                    cfgv[cl.EX_NEG], cfgv[cl.EX_INV], cfgv[cl.EX_UNX] = sw
+                    h = cl.H(cfgv).call(pid, pargs, pblobs, preps).call(inv.callid, inv.args, inv.blobs, reps)
+                    yield h.case(5000, '%s / %s %s' % (inv.name, name, pname))
+
+
 def worker_init():
     cl.setup()
 
@@ -69,7 +88,8 @@ def classify(d):
 def oracle(c, r):
     from harness.core import Case as K
     cfgv, ops = cl.case_ops(c)
-    d = cl.parse_calls(r, 1)[0][0]
+    ncalls = len([o for o in ops if o[0] == 'call'])
+    d = cl.parse_calls(r, ncalls)[0][-1]
     cls = classify(d)
     if d['kind'] == 'raised' and d['err'] >= 20:
         return ('internal-error', 'internal error %d leaked' % d['err'])
@@ -77,7 +97,7 @@ def oracle(c, r):
         return ('looks-successful', 'a response handed back by the decorator carries no failure flag')
     base = K(c.entry, c.ints[:1] + [1, 1, 1] + c.ints[4:], c.blobs)
     rb = cl.run_history_case(base)
-    db = cl.parse_calls(rb, 1)[0][0]
+    db = cl.parse_calls(rb, ncalls)[0][-1]
     cb = classify(db)
     if cls != cb:
         return ('class-changed', 'switches %r: outcome class %s, with all switches on: %s' % (cfgv[:3], cls, cb))
@@ -85,7 +105,7 @@ def oracle(c, r):
     pb = db['resp']['payload'] if db['resp'] else None
     if pa != pb:
         return ('payload-changed', 'switches %r: payload %r vs %r' % (cfgv[:3], pa, pb))
-    callid = ops[0][1]
+    callid = [o for o in ops if o[0] == 'call'][-1][1]
     if callid != 1:
         sw = {'negative': cfgv[0], 'invalid': cfgv[1], 'unexpected': cfgv[2]}
         if cls in sw:
